@@ -637,6 +637,9 @@ func (l *Line) ByteArray(name string, value []byte) *Line {
 	truncated := false
 	rem := cap(l.buffer) - l.index - 1 - len(name) - 2
 	if rem <= len(value)*3 { // each byte occupies 3 characters
+		if rem < len("TRUNCATED ") { // no room for the marker: drop the field
+			return l
+		}
 		copy(l.buffer[cap(l.buffer)-len("TRUNCATED "):], []byte("TRUNCATED "))
 		rem = rem - len("TRUNCATED ")
 		value = value[:rem/3]
